@@ -1,6 +1,7 @@
 import N0Verif.Proofs.CompareOpts
 import N0Verif.Proofs.CompareTransform
 import N0Verif.Proofs.CompareTransformKeyed
+import N0Verif.Proofs.XPathMatchGenEq
 /-!
 # C10 — exclude_xpaths, compare_only and transform only narrow or map what is compared
 
@@ -183,3 +184,79 @@ example : (compareTop { Cfg.default Flags.init true with only := .many [['f']] }
     = .ok (2, [[.key ['k'], .key ['f']], [.key ['l'], .idx 0]], 0) := by decide
 
 end N0.C10
+
+/-! ################################################################################################################
+# BEGIN generated-source tie (worker genxm; see notes/C10-gen.md) — keep this block at the end of the file
+
+`Gen/XPathMatch.lean` is regenerated from the Python text of `xpath_match` (`n0struct/n0struct_utils_compare.py`) by
+`harness/translate_py_cmp.py` on every run of `./check C10`; the theorems below are re-checked against the new text.
+Proofs: `Proofs/XPathMatchGenEq.lean`.  The translated function returns an `int` inside `Except PyErr` (the translator
+does not know that `xs[-1 - j]` cannot raise here); the model returns a natural number.
+################################################################################################################ -/
+namespace N0.C10
+open N0 N0.Compare
+
+/-- **The translated `xpath_match` is the hand-written model**, for every path text and every argument (`str`, or
+tuple/list of `str`): same number, and it never raises (the `IndexError` of `xpath_parts[-1 - j]` is unreachable behind
+the `j >= len(xpath_parts)` test; the `TypeError` branch is unreachable for a `PatArg`). -/
+theorem C10_generated_xpath_match_eq (x : Str) (a : PatArg) :
+    Gen.XPathMatch.xpathMatch x a = .ok (Int.ofNat (Compare.xpathMatch x a)) :=
+  XPathMatchGenEq.xmgen_xpathMatch_eq x a
+
+/-- the tuple / list specialisation is `xpathMatchFrom … 0` (what `transform` lookups and composite keys use) -/
+theorem C10_generated_xpath_match_seq_eq (x : Str) (l : List Str) :
+    Gen.XPathMatch.xpathMatchSeq x l = .ok (Int.ofNat (Compare.xpathMatchFrom x 0 l)) :=
+  XPathMatchGenEq.xmgen_seq_eq x l
+
+/-- the `str` specialisation is the one-element list -/
+theorem C10_generated_xpath_match_str_eq (x s : Str) :
+    Gen.XPathMatch.xpathMatchStr x s = .ok (Int.ofNat (Compare.xpathMatchFrom x 0 [s])) :=
+  XPathMatchGenEq.xmgen_str_eq x s
+
+/-- one iteration of the translated outer loop decides `matchOne` (the model of "this pattern matches this path") -/
+theorem C10_generated_step_matchOne (x pat : Str) (i : Nat) :
+    Gen.XPathMatch.XpathMatchSeq.step2 (Py.splitChar '/' x) () (pat, i) =
+      .ok (if matchOne x pat then .exit (Int.ofNat i + 1) else .next ()) :=
+  XPathMatchGenEq.xmgen_step2Seq (Py.splitChar '/' x) pat i
+
+/-- **C10 (pattern matcher) on the translated code, result 0**: the translated `xpath_match` returns 0 iff no pattern
+matches in the tail-anchored reading `specMatch` (case-insensitive, `*` = one part, empty part = any prefix) … -/
+theorem C10_xpath_match_zero_generated (x : Str) (a : PatArg) :
+    Gen.XPathMatch.xpathMatch x a = .ok 0 ↔ ∀ p ∈ a.pats, specMatch x p = false := by
+  rw [C10_generated_xpath_match_eq, ← C10_xpath_match_zero]
+  constructor
+  · intro h
+    have h' : Int.ofNat (xpathMatch x a) = 0 := by injection h
+    exact Int.ofNat_eq_zero.mp h'
+  · intro h; rw [h]; rfl
+
+/-- … and `i + 1` iff the `i`-th pattern is the first one that matches. -/
+theorem C10_xpath_match_pos_generated (x : Str) (a : PatArg) (i : Nat) :
+    Gen.XPathMatch.xpathMatch x a = .ok (Int.ofNat (i + 1)) ↔
+      (∃ p, a.pats[i]? = some p ∧ specMatch x p = true) ∧
+        ∀ j < i, ∀ q, a.pats[j]? = some q → specMatch x q = false := by
+  rw [C10_generated_xpath_match_eq, ← C10_xpath_match_pos]
+  constructor
+  · intro h
+    have h' : Int.ofNat (xpathMatch x a) = Int.ofNat (i + 1) := by injection h
+    exact Int.ofNat.inj h'
+  · intro h; rw [h]
+
+/-- a pattern given as `str` behaves as the one-element tuple — on the translated code -/
+theorem C10_str_vs_tuple_generated (x s : Str) :
+    Gen.XPathMatch.xpathMatch x (.one s) = Gen.XPathMatch.xpathMatch x (.many [s]) := by
+  rw [C10_generated_xpath_match_eq, C10_generated_xpath_match_eq, C10_str_vs_tuple]
+
+/-! Non-vacuity (the translated definitions are evaluated): `//`-relative, `*`, mixed case, a leading `/` that does not
+anchor at the root, a pattern longer than the path, the second pattern of a tuple, the empty tuple, the `str` form. -/
+example : Gen.XPathMatch.xpathMatch ['/', 'a', '[', '0', ']', '/', 'N', 'a', 'm', 'e'] (.one ['/', '/', 'n', 'a', 'm', 'e']) = .ok 1 := by decide +kernel
+example : Gen.XPathMatch.xpathMatch ['/', 'a', '[', '0', ']', '/', 'N', 'a', 'm', 'e'] (.many [['*', '/', 'N', 'A', 'M', 'E']]) = .ok 1 := by decide +kernel
+example : Gen.XPathMatch.xpathMatch ['/', 'x', '/', 'a', '/', 'b'] (.one ['/', 'a', '/', 'b']) = .ok 1 := by decide +kernel
+example : Gen.XPathMatch.xpathMatch ['/', 'b'] (.one ['c', '/', 'a', '/', 'b']) = .ok 0 := by decide +kernel
+example : Gen.XPathMatch.xpathMatch ['/', 'k', '/', 'f'] (.many [['z', 'z'], ['K', '/', 'F']]) = .ok 2 := by decide +kernel
+example : Gen.XPathMatch.xpathMatch ['/', 'k', '/', 'f'] (.many []) = .ok 0 := by decide +kernel
+example : Gen.XPathMatch.xpathMatch ['/', 'k'] (.one []) = .ok 1 := by decide +kernel   -- the empty pattern is one empty part
+example : specMatch ['/', 'k', '/', 'f'] ['K', '/', 'F'] = true ∧ specMatch ['/', 'k', '/', 'f'] ['z', 'z'] = false := by decide +kernel
+
+end N0.C10
+/-! # END generated-source tie -/
